@@ -1,8 +1,8 @@
 package c14
 
 import (
-	"encoding/json"
 	"context"
+	"encoding/json"
 	"os"
 	"path/filepath"
 	"strings"
@@ -32,6 +32,9 @@ func probeDesign() *m.Design {
 	// two bodies with the same attributes, only the first restricts "a"
 	add("enuma", rt.Obj(rt.Fld("a", &m.Attr{Type: &m.Type{Kind: m.String}, V: &m.Validation{Enum: []value.V{value.Str("red"), value.Str("green")}}}, true)), nil)
 	add("enumb", rt.Obj(rt.Fld("a", m.Prim(m.String), true)), nil)
+	// Body("codes") for an attribute that is not required and has a length validation
+	s.Methods = append(s.Methods, &m.Method{Name: "optbody", Payload: rt.Obj(rt.Fld("q", m.Prim(m.String), false), rt.Fld("codes", &m.Attr{Type: &m.Type{Kind: m.Array, Elem: m.Prim(m.String)}, V: &m.Validation{MinLen: ip(2)}}, false)),
+		HTTP: &m.HTTPEndpoint{Routes: []m.Route{{Verb: "POST", Path: "/optbody"}}, Query: []m.Mapping{{Attr: "q"}}, Body: &m.Body{Mode: "attr", Attr: "codes"}}})
 	d.Services = []*m.Service{s}
 	return d
 }
@@ -95,6 +98,14 @@ func TestProbes(t *testing.T) {
 	rt.Probe("C14-bytes-length-applied-to-base64-text", func() (bool, string) {
 		o := call("byteslen", value.Object(f("b", value.Bytes([]byte{1, 2, 3, 4}))))
 		return o.StubCalls == 1 && strings.Contains(doc, `"maxLength":4`), "4 bytes (base64 \"AQIDBA==\", 8 characters) accepted by the server under MaxLength(4); the schema says maxLength 4 on the string"
+	})
+	rt.Probe("C14-absent-optional-body-attribute-validated-as-zero-value", func() (bool, string) {
+		o := call("optbody", value.Object(f("q", value.Str("x")), f("codes", value.Array(value.Str("a"), value.Str("b")))), harness.Edit{Op: "del_body"})
+		st := 0
+		if o.Response != nil {
+			st = o.Response.Status
+		}
+		return o.StubCalls == 0 && st == 400 && strings.Contains(string(o.Response.Body), "invalid_length"), "request without body for Body(\"codes\") of an optional array with MinLength(2): the server answers " + itoa(st) + " invalid_length for the zero value although the attribute is simply unset (the document says the body is optional)"
 	})
 	rt.Probe("C14-map-length-not-documented", func() (bool, string) {
 		o := call("maplen", value.Object(f("mm", value.MapOf(value.Str("k"), value.Bool(true)))))
